@@ -753,6 +753,17 @@ func (fg *FlowGraph) Reach(q PathQuery) (bool, []ast.Node) {
 			for i := 0; i <= q.From.Idx && i < len(startB.Nodes); i++ {
 				facts = fg.killed(startB.Nodes[i], facts)
 			}
+			// what the rule states to hold just after From (the effect of From itself, say) comes on top
+			if len(q.Facts) > 0 {
+				nf := map[identFact]bool{}
+				for k, v := range facts {
+					nf[k] = v
+				}
+				for k, v := range q.Facts {
+					nf[k] = v
+				}
+				facts = nf
+			}
 		}
 	}
 	type vkey struct {
